@@ -14,6 +14,7 @@ VARIABLES tid, l,
           lastObs,   \* [env -> tag the environment returned last]
           queue,     \* [env -> Seq of produced transitions not yet stored]
           kept,      \* Seq of all transitions kept so far (add events, in order)
+          hist,      \* Seq of all transitions the environment(s) produced so far (step events; auto-reset calls), in log order
           autoq,     \* [env -> Seq of rows a vector environment produced for its auto-reset calls (NEXT_STEP mode)]
           pend,      \* [env -> [src, act]] pending action choice
           executed, epsDone,
@@ -25,7 +26,7 @@ VARIABLES tid, l,
           dirty,     \* targets whose online counterpart (cfg.pairs) changed since the target last changed
           viol       \* set of <<position, clause>>
 
-vars == <<tid, l, phase, lastObs, queue, kept, autoq, pend, executed, epsDone, updates, prevEv, callStart, iters, seg, dirty, viol>>
+vars == <<tid, l, phase, lastObs, queue, kept, hist, autoq, pend, executed, epsDone, updates, prevEv, callStart, iters, seg, dirty, viol>>
 
 T == Traces[tid]
 C == T.cfg
@@ -38,7 +39,7 @@ Init == /\ tid \in 1..Len(Traces) /\ l = 1
         /\ lastObs = [e \in 0..(Traces[tid].cfg.nenvs - 1) |-> NoTag]
         /\ queue = [e \in 0..(Traces[tid].cfg.nenvs - 1) |-> <<>>]
         /\ autoq = [e \in 0..(Traces[tid].cfg.nenvs - 1) |-> <<>>]
-        /\ kept = <<>>
+        /\ kept = <<>> /\ hist = <<>>
         /\ pend = [e \in 0..(Traces[tid].cfg.nenvs - 1) |-> [src |-> "none", act |-> "none"]]
         /\ executed = 0 /\ epsDone = 0 /\ updates = 0 /\ prevEv = "none" /\ viol = {}
         /\ dirty = {} /\ callStart = 0 /\ iters = 0 /\ seg = [open |-> FALSE, changed |-> {}, stepIdx |-> 0, iter |-> 0]
@@ -126,6 +127,13 @@ Bump == /\ l' = l + 1 /\ prevEv' = E.ev /\ UNCHANGED tid
         /\ kept' = IF E.ev = "add" /\ ~E.auto
                    THEN Append(kept, [obs |-> E.obs, act |-> E.act, r |-> E.r4, next |-> E.next, term |-> E.term])
                    ELSE kept
+        (* the environment log as transitions: what a step produced = (observation returned last, action received, reward,
+           successor, termination flag); the answer of a NEXT_STEP vector environment to the call after an episode end *)
+        /\ hist' = IF E.ev = "step"
+                   THEN Append(hist, [obs |-> lastObs[E.env], act |-> E.act, r |-> E.r4, next |-> E.obs, term |-> E.term])
+                   ELSE IF E.ev = "reset" /\ C.autoreset /\ phase[E.env] = "ended"
+                   THEN Append(hist, [obs |-> lastObs[E.env], act |-> "any", r |-> 0, next |-> E.obs, term |-> FALSE])
+                   ELSE hist
         /\ dirty' = (dirty \cup {t \in Paired : OnlineOf(t) \cap Changed # {}}) \ (Changed \cap SetOf(C.targets))
         /\ seg' = IF E.ev = Opener
                   THEN [open |-> TRUE, changed |-> {}, iter |-> IF Opener = "sample" THEN iters + 1 ELSE iters,
@@ -257,14 +265,43 @@ EvResult ==
   /\ Fail(Common \cup (IF Len(E.aliased) > 0 THEN {"ResultComponentsDistinct"} ELSE {}))
   /\ UNCHANGED <<phase, lastObs, queue, autoq, pend, executed, epsDone>>
 
+(* the rows a learner is handed (module-level policy / value update functions of the on-policy routines, interposed at
+   call time): every row of the prepared batch - whatever its layout - is one real environment step: its observation is
+   the observation some step started from and the action (reward, successor, flag - the fields the row carries) are
+   those of THAT step.  Judged against the environment log (hist), not against the routine's own rollout record. *)
+EvLearnRows ==
+  /\ E.ev = "learn_rows"
+  /\ LET produced == SetOf(hist)
+         row(i) == [obs |-> E.lrows[i].obs, act |-> E.lrows[i].act, r |-> E.lrows[i].r4, next |-> E.lrows[i].next, term |-> E.lrows[i].term]
+         verdicts == {CRowVerdict(row(i), SetOf(E.lrows[i].has), produced) : i \in 1..Len(E.lrows)}
+     IN Fail(Common \cup {"Learn" \o v : v \in verdicts \ {"ok"}})
+  /\ UNCHANGED <<phase, lastObs, queue, autoq, pend, executed, epsDone>>
+
+(* the experience record a model-based tabular learner keeps (Dyna-Q's Counter: transition counts and reward lists per
+   (o, a, o')), projected as a whole whenever it is handed to the model update: it must equal exactly the multiset of
+   environment steps so far - the entry of (o, a, o') counts the logged steps (o, a) -> o' and lists the rewards of exactly
+   those steps in order; transitions that never happened have no entry; every transition that happened has one. *)
+EvExperience ==
+  /\ E.ev = "experience"
+  /\ LET n == Len(E.rec)
+         steps(i) == CStepsOf(hist, E.rec[i].obs, E.rec[i].act, E.rec[i].next)
+         listed == {<<E.rec[i].obs, E.rec[i].act, E.rec[i].next>> : i \in 1..n}
+         happened == {<<hist[k].obs, hist[k].act, hist[k].next>> : k \in 1..Len(hist)}
+     IN Fail(Common
+          \cup (IF \E i \in 1..n : ~CRecordProduced(steps(i)) THEN {"RecordNotProduced"} ELSE {})
+          \cup (IF \E i \in 1..n : CRecordProduced(steps(i)) /\ ~CRecordCount(E.rec[i], steps(i)) THEN {"RecordCount"} ELSE {})
+          \cup (IF \E i \in 1..n : CRecordProduced(steps(i)) /\ ~CRecordRewards(E.rec[i], steps(i)) THEN {"RecordReward"} ELSE {})
+          \cup (IF E.readable /\ happened \ listed # {} THEN {"RecordMissing"} ELSE {}))
+  /\ UNCHANGED <<phase, lastObs, queue, autoq, pend, executed, epsDone>>
+
 (* events without protocol content (buffer sampling, logger calls ...): frame clauses only *)
 EvOther ==
-  /\ E.ev \notin {"reset", "explore", "policy", "step", "add", "ret", "inner_call", "inner_ret", "final_buffer", "result"}
+  /\ E.ev \notin {"reset", "explore", "policy", "step", "add", "ret", "inner_call", "inner_ret", "final_buffer", "result", "learn_rows", "experience"}
   /\ Fail(Common)
   /\ UNCHANGED <<phase, lastObs, queue, autoq, pend, executed, epsDone>>
 
 Next == /\ l <= Len(T.events)
-        /\ (EvReset \/ EvExplore \/ EvPolicy \/ EvStep \/ EvAdd \/ EvRet \/ EvInnerCall \/ EvInnerRet \/ EvFinalBuffer \/ EvResult \/ EvOther)
+        /\ (EvReset \/ EvExplore \/ EvPolicy \/ EvStep \/ EvAdd \/ EvRet \/ EvInnerCall \/ EvInnerRet \/ EvFinalBuffer \/ EvResult \/ EvLearnRows \/ EvExperience \/ EvOther)
         /\ Bump
 
 (* verdict lines: one per trace, printed when the trace is consumed *)
